@@ -25,13 +25,24 @@ def WouldDuplicate (sch : Schema) (s : State) (op : Op) : Prop :=
   ∃ id e, targetEnt sch s op = some (id, e) ∧
     ((vName sch e ≠ [] ∧ HeldByOther (vName sch) s.base.ents id (vName sch e)) ∨
      (vAlias sch e ≠ [] ∧ HeldByOther (vAlias sch) s.base.ents id (vAlias sch e))) ∧
-    (sch.regName = true → e.name ≠ []) ∧ [] ∉ vRoles sch e
+    (sch.regName = true → e.name ≠ []) ∧ [] ∉ vRoles sch e ∧
+    (vName sch e).length ≤ maxKeySize ∧ (vAlias sch e).length ≤ maxKeySize
 
 /-- the new entity's name is empty while the non-nullable unique index on it is registered — and
     that is the only thing wrong with the write -/
 def WouldBeEmpty (sch : Schema) (s : State) (op : Op) : Prop :=
   ∃ id e, targetEnt sch s op = some (id, e) ∧ sch.regName = true ∧ e.name = [] ∧
-    ¬ (vAlias sch e ≠ [] ∧ HeldByOther (vAlias sch) s.base.ents id (vAlias sch e)) ∧ [] ∉ vRoles sch e
+    ¬ (vAlias sch e ≠ [] ∧ HeldByOther (vAlias sch) s.base.ents id (vAlias sch e)) ∧ [] ∉ vRoles sch e ∧
+    (vAlias sch e).length ≤ maxKeySize
+
+/-- an indexed unique value of the new entity is longer than bbolt's key limit, and neither an empty
+    name nor a duplicate competes for the error -/
+def WouldOverflow (sch : Schema) (s : State) (op : Op) : Prop :=
+  ∃ id e, targetEnt sch s op = some (id, e) ∧
+    ((vName sch e).length > maxKeySize ∨ (vAlias sch e).length > maxKeySize) ∧
+    (sch.regName = true → e.name ≠ []) ∧
+    ¬ (vName sch e ≠ [] ∧ HeldByOther (vName sch) s.base.ents id (vName sch e)) ∧
+    ¬ (vAlias sch e ≠ [] ∧ HeldByOther (vAlias sch) s.base.ents id (vAlias sch e))
 
 /-- for an operation with a target the spec's verdict is `put` of that target -/
 theorem spec_step_target {sch : Schema} {s : State} {op : Op} {id : Id} {e : Ent}
@@ -99,31 +110,46 @@ theorem stepRaw_only {sch : Schema} {s : State} {op : Op} {id : Id} {e : Ent} {x
 
 theorem stepRaw_dup {sch : Schema} {s : State} {op : Op} (hi : Inv sch s) (hw : WouldDuplicate sch s op) :
     stepRaw sch s op = .error .dup := by
-  obtain ⟨id, e, ht, hd, hne, hr⟩ := hw
+  obtain ⟨id, e, ht, hd, hne, hr, hf1, hf2⟩ := hw
   refine stepRaw_only hi ht ?_ ?_
   · rcases hd with hd | hd
     · exact Or.inr (Or.inl ⟨rfl, hd.1, hd.2⟩)
     · exact Or.inr (Or.inr (Or.inl ⟨rfl, hd.1, hd.2⟩))
-  · rintro x (⟨_, h1, h2⟩ | ⟨rfl, _⟩ | ⟨rfl, _⟩ | ⟨_, h1⟩)
+  · rintro x (⟨_, h1, h2⟩ | ⟨rfl, _⟩ | ⟨rfl, _⟩ | ⟨_, h1⟩ | ⟨_, h1 | h1⟩)
     · exact absurd h2 (hne h1)
     · rfl
     · rfl
     · exact absurd h1 hr
+    · exact absurd hf1 (Nat.not_le_of_gt h1)
+    · exact absurd hf2 (Nat.not_le_of_gt h1)
 
 theorem stepRaw_empty {sch : Schema} {s : State} {op : Op} (hi : Inv sch s) (hw : WouldBeEmpty sch s op) :
     stepRaw sch s op = .error .nullNotAllowed := by
-  obtain ⟨id, e, ht, hreg, hne, ha, hr⟩ := hw
+  obtain ⟨id, e, ht, hreg, hne, ha, hr, hf2⟩ := hw
   refine stepRaw_only hi ht (Or.inl ⟨rfl, hreg, hne⟩) ?_
-  rintro x (⟨rfl, _⟩ | ⟨_, h1, _⟩ | ⟨_, h1, h2⟩ | ⟨_, h1⟩)
+  rintro x (⟨rfl, _⟩ | ⟨_, h1, _⟩ | ⟨_, h1, h2⟩ | ⟨_, h1⟩ | ⟨_, h1 | h1⟩)
   · rfl
   · exact absurd (by simp [vName, hreg, hne]) h1
   · exact absurd ⟨h1, h2⟩ ha
   · exact absurd h1 hr
+  · simp [vName, hreg, hne] at h1
+  · exact absurd hf2 (Nat.not_le_of_gt h1)
+
+theorem stepRaw_overflow {sch : Schema} {s : State} {op : Op} (hi : Inv sch s) (hw : WouldOverflow sch s op) :
+    stepRaw sch s op = .error .other := by
+  obtain ⟨id, e, ht, hl, hne, hd1, hd2⟩ := hw
+  refine stepRaw_only hi ht (Or.inr (Or.inr (Or.inr (Or.inr ⟨rfl, hl⟩)))) ?_
+  rintro x (⟨_, h1, h2⟩ | ⟨_, h1, h2⟩ | ⟨_, h1, h2⟩ | ⟨rfl, _⟩ | ⟨rfl, _⟩)
+  · exact absurd h2 (hne h1)
+  · exact absurd ⟨h1, h2⟩ hd1
+  · exact absurd ⟨h1, h2⟩ hd2
+  · rfl
+  · rfl
 
 /-! ### no panic -/
 
 theorem listed_ne_panic {sch : Schema} {ents : Map Id Ent} {id : Id} {e : Ent} (h : Listed sch ents id e .panic) : False := by
-  rcases h with ⟨h, _⟩ | ⟨h, _⟩ | ⟨h, _⟩ | ⟨h, _⟩ <;> cases h
+  rcases h with ⟨h, _⟩ | ⟨h, _⟩ | ⟨h, _⟩ | ⟨h, _⟩ | ⟨h, _⟩ <;> cases h
 
 theorem spec_put_no_panic {sch : Schema} {t : Spec.SState} {id : Id} {e : Ent} {b : Bool} {x : Option Bytes} {es : List Err}
     (h : Spec.put sch t id e b x = .error es) : Err.panic ∉ es := by
